@@ -1656,7 +1656,43 @@ fn heavy_case(out: &mut Out, w: &mut World, txs: &[Transaction], what: &str) {
 	}
 }
 
+/// the block hash / nonce under which the two fake kernels of `COLLIDING_FEES` have the same short id
+const COLLISION_NONCE: u64 = 7;
+fn collision_hash() -> Hash {
+	Hash::from_vec(&[0x11u8; 32])
+}
+fn fake_kernel(fee: u32) -> TxKernel {
+	TxKernel::with_features(KernelFeatures::Plain { fee: fee.into() })
+}
+
+/// diagnostic (argv[1] = findcollision): birthday search over kernels Plain{fee = 1..n} (default
+/// excess and signature) for two with the same 6-byte short id under (collision_hash, COLLISION_NONCE)
+fn find_collision(n: u32) {
+	let h = collision_hash();
+	let mut ids: Vec<u64> = Vec::with_capacity(n as usize);
+	for fee in 1..=n {
+		let sid = fake_kernel(fee).short_id(&h, COLLISION_NONCE);
+		let mut b = [0u8; 8];
+		b[..6].copy_from_slice(sid.as_ref());
+		ids.push(u64::from_le_bytes(b));
+	}
+	let mut sorted = ids.clone();
+	sorted.sort_unstable();
+	for wdw in sorted.windows(2) {
+		if wdw[0] == wdw[1] {
+			let fees: Vec<usize> = ids.iter().enumerate().filter(|(_, v)| **v == wdw[0]).map(|(i, _)| i + 1).collect();
+			println!("collision: short id {:012x} fees {:?}", wdw[0], fees);
+		}
+	}
+	println!("searched {} kernels", n);
+}
+
 fn main() {
+	if std::env::args().nth(1).as_deref() == Some("findcollision") {
+		let n: u32 = std::env::args().nth(2).and_then(|x| x.parse().ok()).unwrap_or(1 << 25);
+		find_collision(n);
+		return;
+	}
 	global::set_local_chain_type(ChainTypes::AutomatedTesting);
 	global::set_local_nrd_enabled(true);
 	global::set_local_accept_fee_base(1);
